@@ -134,6 +134,12 @@ def exhaustive():
     for p, q in itertools.combinations(dn, 2):
         docs.append({"definitions": {p: {"type": "object", "properties": {"bar": {"type": "object", "properties": {
             "k": {"type": "integer"}}}}}, q: {"type": "string", "enum": ["v"]}}})
+    # name reuse: a definition that sorts before `Foo` and sanitises to `FooBar` is reused for the inline `Foo.bar`
+    for p in ["FOO_BAR", "FOO-BAR", " foo bar", "FOO.bar"]:
+        for inl in ({"type": "object", "properties": {"k": {"type": "integer"}}}, {"type": "string", "enum": ["v", "w"]},
+                    {"type": "string", "maxLength": 2}):
+            docs.append({"definitions": {p: {"type": "object", "properties": {"z": {"type": "boolean"}}, "required": ["z"]},
+                                         "Foo": {"type": "object", "properties": {"bar": inl}, "required": ["bar"]}}})
     return docs
 
 
@@ -342,13 +348,21 @@ def run(n=300, seed=1, tag="convert_check", exhaustive_docs=True, show=3):
         docs.append(d)
         origin.append("random-names")
     verdict, gens = evaluate(tag, docs)
+    # name reuse (hook verif::take_name_reuse, `name_reuse` of vh gen): assign_type resolved a named type to a
+    # DIFFERENT existing type of that name.  `unique (all_names ..)` in in_frag claims this never happens on
+    # the fragment; documents with such an event must all be classified outside (and some must exist).
     res = {"total": len(docs), "in_frag": 0, "out": 0, "out_model_equal": 0, "unsupported": 0, "mismatches": [],
-           "by_origin": {}}
+           "by_origin": {}, "reuse_in_frag": [], "reuse_out": 0}
     for i, d in enumerate(docs):
         v = verdict.get(i, "MISSING")
         o = res["by_origin"].setdefault(origin[i], {"OK": 0, "OUT": 0, "OUT_EQ": 0, "MISMATCH": 0, "UNSUPPORTED": 0,
                                                     "MISSING": 0})
         o[v] += 1
+        reuse = (gens[i] or {}).get("name_reuse") or []
+        if reuse and v == "OK":
+            res["reuse_in_frag"].append({"index": i, "origin": origin[i], "doc": d, "name": reuse[0].get("name")})
+        elif reuse and v in ("OUT", "OUT_EQ"):
+            res["reuse_out"] += 1
         if v == "OK":
             res["in_frag"] += 1
         elif v in ("OUT", "OUT_EQ"):
@@ -410,6 +424,10 @@ def convert_obligations(ctx, prop, n=None, exhaustive_docs=None, k3=True):
     ctx.oblige("correspondence K3: Convert.convert_doc = real type space (exact term equality) on %d fragment "
                "documents" % res["in_frag"], not res["mismatches"] and res["in_frag"] > 0,
                json.dumps(res["mismatches"][:2], default=str)[:1500])
+    ctx.oblige("no fragment document has a name-reuse event of the real converter (hook take_name_reuse); "
+               "%d documents with such an event, all classified outside" % res["reuse_out"],
+               not res["reuse_in_frag"] and res["reuse_out"] > 0,
+               json.dumps(res["reuse_in_frag"][:2], default=str)[:1500])
     ctx.coverage["convert_fragment_documents"] = res["in_frag"]
     ctx.coverage["convert_outside_fragment"] = res["out"]
     ctx.evaluations += res["in_frag"]
@@ -425,12 +443,16 @@ def main():
     ap.add_argument("--show", type=int, default=5)
     a = ap.parse_args()
     res = run(a.n, a.seed, a.tag, not a.no_exhaustive)
-    print(json.dumps({k: v for k, v in res.items() if k != "mismatches"}, indent=1))
+    print(json.dumps({k: v for k, v in res.items() if k not in ("mismatches", "reuse_in_frag")}, indent=1))
     print("compared (in fragment, exact equality): %d   outside the fragment: %d   mismatches: %d"
           % (res["in_frag"], res["out"], len(res["mismatches"])))
     for m in res["mismatches"][: a.show]:
         print("MISMATCH", json.dumps(m)[:2000])
-    sys.exit(0 if not res["mismatches"] else 1)
+    print("name reuse events: %d in fragment documents (must be 0), %d in documents outside"
+          % (len(res["reuse_in_frag"]), res["reuse_out"]))
+    for m in res["reuse_in_frag"][: a.show]:
+        print("NAME-REUSE-IN-FRAGMENT", json.dumps(m)[:1500])
+    sys.exit(0 if not res["mismatches"] and not res["reuse_in_frag"] else 1)
 
 
 if __name__ == "__main__":
